@@ -20,7 +20,7 @@ from typing import Optional
 
 from ..core import cfg as cfgmod
 from ..core.astutil import (u, dotted, walk_local, call_name, kwarg, arg_or_kw, find_assign,
-                            single_assign_value, parent_map, assigned_targets)
+                            single_assign_value, parent_map, assigned_targets, subst)
 from ..core.loader import AnchorError, Undecided
 from ..core.report import Ctx
 
@@ -188,9 +188,10 @@ class _Loc:
     def is_loc_collection(self, e: ast.AST) -> bool:
         return isinstance(e, (ast.List, ast.Tuple, ast.Set)) and bool(e.elts) and all(self.kind(x) for x in e.elts)
 
-    def loc_names(self, scope: ast.AST) -> set[str]:
-        """Local names that hold a location key inside `scope` (a function or module)."""
-        names: set[str] = set()
+    def loc_names(self, scope: ast.AST, extra: Optional[set] = None) -> set[str]:
+        """Local names that hold a location key inside `scope` (a function or module).  `extra`: parameters
+        known to receive a location key from a caller in the same module."""
+        names: set[str] = set(extra or ())
         vi: set[str] = set()  # names holding the result of _validate_indices(...)
         for n in walk_local(scope):
             if isinstance(n, ast.Assign) and isinstance(n.value, ast.Call) and call_name(n.value) == "_validate_indices":
@@ -199,8 +200,9 @@ class _Loc:
             if isinstance(n, (ast.For, ast.AsyncFor, ast.comprehension)):
                 if isinstance(n.target, ast.Name) and self.is_loc_collection(n.iter):
                     names.add(n.target.id)
-                if isinstance(n.target, ast.Tuple) and n.target.elts and isinstance(n.target.elts[0], ast.Name) \
-                        and isinstance(n.iter, ast.Name) and n.iter.id in vi:
+                from_vi = (isinstance(n.iter, ast.Name) and n.iter.id in vi) or (
+                    isinstance(n.iter, ast.Call) and call_name(n.iter) == "_validate_indices")
+                if isinstance(n.target, ast.Tuple) and n.target.elts and isinstance(n.target.elts[0], ast.Name) and from_vi:
                     names.add(n.target.elts[0].id)
             elif isinstance(n, ast.Assign):
                 if self.kind(n.value):
@@ -209,6 +211,12 @@ class _Loc:
                     for t in n.targets:
                         if isinstance(t, ast.Tuple) and t.elts and isinstance(t.elts[0], ast.Name):
                             names.add(t.elts[0].id)
+                if isinstance(n.value, ast.Name) and n.value.id in vi:
+                    # ((loc, index),) = pairs
+                    for t in n.targets:
+                        if isinstance(t, (ast.Tuple, ast.List)) and len(t.elts) == 1 and isinstance(t.elts[0], (ast.Tuple, ast.List)) \
+                                and t.elts[0].elts and isinstance(t.elts[0].elts[0], ast.Name):
+                            names.add(t.elts[0].elts[0].id)
             elif isinstance(n, ast.Compare) and isinstance(n.left, ast.Name) and len(n.ops) == 1:
                 c = n.comparators[0]
                 if isinstance(n.ops[0], (ast.In, ast.NotIn)) and self.is_loc_collection(c):
@@ -218,8 +226,55 @@ class _Loc:
         return names
 
 
-def _aliases(scope: ast.AST) -> dict[str, ast.Subscript]:
-    """Local names assigned exactly once, from a subscript expression (`h = data[loc][name]`)."""
+def _helpers_of(mod) -> dict[str, ast.FunctionDef]:
+    """Module-level accessor helpers: functions with exactly one `return <subscript chain>` (e.g. a private
+    `_solution_storage(name, data, loc)` returning data[loc][name])."""
+    out = {}
+    for f in mod.tree.body:
+        if isinstance(f, ast.FunctionDef):
+            rets = [r for r in walk_local(f) if isinstance(r, ast.Return)]
+            if len(rets) == 1 and isinstance(rets[0].value, ast.Subscript):
+                out[f.name] = f
+    return out
+
+
+def _bind(call: ast.Call, fn: ast.FunctionDef, skip_self: bool = False, fill_defaults: bool = False) -> Optional[dict[str, ast.expr]]:
+    """Parameter -> argument expression of a call (None if it cannot be bound statically)."""
+    ps = [p for p in _params(fn) if not (skip_self and p == "self")]
+    ps_all = ps + [a.arg for a in fn.args.kwonlyargs]
+    if any(isinstance(a, ast.Starred) for a in call.args) or any(k.arg is None for k in call.keywords):
+        return None
+    if len(call.args) > len(ps):
+        return None
+    m = {p: a for p, a in zip(ps, call.args)}
+    for k in call.keywords:
+        if k.arg not in ps_all or k.arg in m:
+            return None
+        m[k.arg] = k.value
+    if fill_defaults:
+        pos = _params(fn)
+        for pname, dflt in zip(pos[len(pos) - len(fn.args.defaults):], fn.args.defaults):
+            m.setdefault(pname, dflt)
+        for a, dflt in zip(fn.args.kwonlyargs, fn.args.kw_defaults):
+            if dflt is not None:
+                m.setdefault(a.arg, dflt)
+    return m
+
+
+def _inline_helper(call: ast.Call, helpers: Optional[dict]) -> Optional[ast.expr]:
+    if not helpers or not isinstance(call.func, ast.Name) or call.func.id not in helpers:
+        return None
+    f = helpers[call.func.id]
+    m = _bind(call, f)
+    if m is None or set(_params(f)) - set(m):
+        return None
+    ret = [r for r in walk_local(f) if isinstance(r, ast.Return)][0]
+    return subst(ret.value, m)  # type: ignore[return-value]
+
+
+def _aliases(scope: ast.AST, helpers: Optional[dict] = None) -> dict[str, ast.Subscript]:
+    """Local names assigned exactly once, from a subscript expression (`h = data[loc][name]`) or from a call of an
+    accessor helper of the same module that returns one (inlined with its arguments bound)."""
     count: dict[str, int] = {}
     val: dict[str, ast.AST] = {}
     for n in walk_local(scope):
@@ -228,7 +283,10 @@ def _aliases(scope: ast.AST) -> dict[str, ast.Subscript]:
                 if isinstance(t, ast.Name):
                     count[t.id] = count.get(t.id, 0) + 1
                     if isinstance(n, ast.Assign) and len(n.targets) == 1 and n.targets[0] is t:
-                        val[t.id] = n.value
+                        v = n.value
+                        if isinstance(v, ast.Call):
+                            v = _inline_helper(v, helpers) or v
+                        val[t.id] = v
         elif isinstance(n, ast.NamedExpr) and isinstance(n.target, ast.Name):
             count[n.target.id] = count.get(n.target.id, 0) + 2
     return {k: v for k, v in val.items() if count.get(k) == 1 and isinstance(v, ast.Subscript)}
@@ -308,10 +366,10 @@ def _fresh(e: ast.expr) -> Optional[bool]:
     return None
 
 
-def _slot_stores(fn: ast.FunctionDef, data_name: str) -> list[tuple[ast.stmt, ast.Subscript]]:
+def _slot_stores(fn: ast.FunctionDef, data_name: str, helpers: Optional[dict] = None) -> list[tuple[ast.stmt, ast.Subscript]]:
     """Assign / AugAssign statements of fn whose target is data[a][b][c]."""
     out = []
-    al = _aliases(fn)
+    al = _aliases(fn, helpers)
     for s in walk_local(fn):
         if isinstance(s, (ast.Assign, ast.AugAssign, ast.AnnAssign)):
             for t in assigned_targets(s):
@@ -336,8 +394,14 @@ def _slot_reads(e: ast.AST, data_name: str, aliases: Optional[dict]) -> list[tup
     return out
 
 
-def _has_slot_read(e: ast.AST, data_name: str, scope: Optional[ast.AST] = None) -> bool:
-    return bool(_slot_reads(e, data_name, _aliases(scope) if scope is not None else None))
+def _has_slot_read(e: ast.AST, data_name: str, scope: Optional[ast.AST] = None, helpers: Optional[dict] = None) -> bool:
+    return bool(_slot_reads(e, data_name, _aliases(scope, helpers) if scope is not None else None))
+
+
+def _ckey(e: ast.AST, al: Optional[dict]) -> tuple:
+    """Alias-independent identity of a container / slot expression."""
+    base, sl = _chain(e, al)
+    return (u(base), tuple(u(x) for x in sl))
 
 
 def _need_param(fn: ast.FunctionDef, name: str, rel: str) -> str:
@@ -350,11 +414,12 @@ def _rule_copy(ctx: Ctx, adu, eqs) -> None:
     setter = adu.func("set_solution_values")
     getter = adu.func("get_solution_values")
     shifter = adu.func("shift_solution_values")
+    helpers = _helpers_of(adu)
     # -- stores
     n_plain = 0
     for fn in (setter, shifter):
         data = _need_param(fn, "data", AD_UTILS)
-        for s, t in _slot_stores(fn, data):
+        for s, t in _slot_stores(fn, data, helpers):
             if not isinstance(s, ast.Assign):
                 continue  # `+=` mutates the stored array in place and only reads the operand
             n_plain += 1
@@ -387,7 +452,7 @@ def _rule_copy(ctx: Ctx, adu, eqs) -> None:
         for v in vals:
             v = _resolve(getter, v)
             fr = _fresh(v)
-            if fr is None or (fr and not _has_slot_read(v, data, getter)):
+            if fr is None or (fr and not _has_slot_read(v, data, getter, helpers)):
                 raise Undecided(f"{AD_UTILS}:get_solution_values: cannot relate returned `{u(v)}` to the stored slot")
             ctx.check("R1", fr, adu, "get_solution_values", r,
                       "get_solution_values hands out the stored array itself: a later additive write or shift alters what "
@@ -414,12 +479,12 @@ def _rule_copy(ctx: Ctx, adu, eqs) -> None:
 MUTATORS = {"pop", "popitem", "clear", "update", "setdefault", "__setitem__", "__delitem__"}
 
 
-def _store_sites(loc: _Loc, scope: ast.AST):
+def _store_sites(loc: _Loc, scope: ast.AST, extra: Optional[set] = None, helpers: Optional[dict] = None):
     """Yield (node, how, depth, value) for stores through a location key inside scope.
     depth = number of subscripts after the location key of the *entry* that is written
     (0: data[LOC] itself, 1: data[LOC][name], 2: a slot)."""
-    names = loc.loc_names(scope)
-    al = _aliases(scope)
+    names = loc.loc_names(scope, extra)
+    al = _aliases(scope, helpers)
     for n in walk_local(scope):
         if isinstance(n, (ast.Assign, ast.AugAssign, ast.AnnAssign)):
             for t in assigned_targets(n):
@@ -467,10 +532,36 @@ def _rule_who_may_write(ctx: Ctx, loc: _Loc) -> None:
         hits = [n.lineno for n in ast.walk(mod.tree) if hasattr(n, "lineno") and (
             loc.kind(n) or getattr(n, "id", None) == "_validate_indices" or getattr(n, "attr", None) == "_validate_indices")]
         scopes: list[tuple[str, ast.AST]] = [("<module>", mod.tree)]
-        scopes += [(q, n) for q, n in mod.qualnames().items()
+        quals = mod.qualnames()
+        scopes += [(q, n) for q, n in quals.items()
                    if any(n.lineno <= h <= (n.end_lineno or n.lineno) for h in hits)]
+        helpers = _helpers_of(mod)
+        # location keys handed to a function / method of the same module: its parameter holds a location key too
+        extra: dict[str, set] = {}
+        for _ in range(2):
+            for q, scope in list(scopes):
+                names = loc.loc_names(scope, extra.get(q))
+                for c in walk_local(scope):
+                    if not isinstance(c, ast.Call):
+                        continue
+                    if isinstance(c.func, ast.Name):
+                        cq, skip = c.func.id, False
+                    elif isinstance(c.func, ast.Attribute) and u(c.func.value) == "self" and "." in q:
+                        cq, skip = q.rsplit(".", 1)[0] + "." + c.func.attr, True
+                    else:
+                        continue
+                    callee = quals.get(cq)
+                    if not isinstance(callee, ast.FunctionDef):
+                        continue
+                    m = _bind(c, callee, skip_self=skip)
+                    for pname, a in (m or {}).items():
+                        if loc.kind(a) or (isinstance(a, ast.Name) and a.id in names):
+                            if pname not in extra.setdefault(cq, set()):
+                                extra[cq].add(pname)
+                            if all(cq != q2 for q2, _ in scopes):
+                                scopes.append((cq, callee))
         for q, scope in scopes:
-            for node, how, depth, val, tgt in _store_sites(loc, scope):
+            for node, how, depth, val, tgt in _store_sites(loc, scope, extra.get(q), helpers):
                 stmt_txt = f"{how} {u(tgt)}" + (f" <- {u(val)}" if val is not None else "")
                 if depth >= 2:
                     ok = (rel, q) in ALLOWED_SLOT_WRITERS and how in ("assign", "augassign")
@@ -510,8 +601,10 @@ def _rule_guard(ctx: Ctx, adu) -> None:
     data = _need_param(fn, "data", AD_UTILS)
     flag = _need_param(fn, "additive", AD_UTILS)
     g = cfgmod.build(fn)
-    pm = parent_map(fn)
-    stores = _slot_stores(fn, data)
+    helpers = _helpers_of(adu)
+    al = _aliases(fn, helpers)
+    stores = _slot_stores(fn, data, helpers)
+    r_add, r_ovw = _reach(g, {flag: True}), _reach(g, {flag: False})
     augs = [(s, t) for s, t in stores if isinstance(s, ast.AugAssign)]
     plains = [(s, t) for s, t in stores if isinstance(s, ast.Assign)]
     if not augs:
@@ -521,14 +614,14 @@ def _rule_guard(ctx: Ctx, adu) -> None:
     for s, t in augs:
         if not isinstance(s.op, ast.Add):
             raise Undecided(f"{AD_UTILS}:set_solution_values: in-place slot update is not `+=`")
-        cont, idx = u(t.value), u(t.slice)
+        cont, idx = _ckey(t.value, al), u(t.slice)
         an = g.node_for(s)
         guarded = False
         tests = []
         for tn in g.nodes_of(lambda x: isinstance(x, ast.If)):
             test = g.stmt[tn].test
             if not (isinstance(test, ast.Compare) and len(test.ops) == 1 and isinstance(test.ops[0], (ast.In, ast.NotIn))
-                    and u(test.left) == idx and u(test.comparators[0]) == cont):
+                    and u(test.left) == idx and _ckey(test.comparators[0], al) == cont):
                 continue
             tests.append(u(test))
             missing_edge = isinstance(test.ops[0], ast.NotIn)  # edge label on which the key is missing
@@ -544,13 +637,11 @@ def _rule_guard(ctx: Ctx, adu) -> None:
                   "adding to an empty slot is no longer rejected with the documented ValueError",
                   construct=f"{u(t)} += ... guarded by membership test of the same key",
                   facts={"slot": u(t), "membership_tests_found": tests})
-        # polarity w.r.t. the flag
-        env_true = [_ev(test, {flag: True}) if pol else _neg(_ev(test, {flag: True})) for test, pol in _path_conds(pm, s, fn)]
-        env_false = [_ev(test, {flag: False}) if pol else _neg(_ev(test, {flag: False})) for test, pol in _path_conds(pm, s, fn)]
-        ok = (False not in env_true) and (False in env_false)
+        # polarity w.r.t. the flag (feasibility on the CFG, so nested-if and guard-continue forms are the same)
+        ok = an in r_add and an not in r_ovw
         ctx.check("R2", ok, adu, "set_solution_values", s,
                   "the in-place `+=` must be reachable exactly when additive is true",
-                  construct=f"{u(t)} += ... under additive", facts={"additive=True": str(env_true), "additive=False": str(env_false)})
+                  construct=f"{u(t)} += ... under additive", facts={"reachable_if_additive": an in r_add, "reachable_if_not": an in r_ovw})
     raises = g.nodes_of(lambda x: isinstance(x, ast.Raise))
     late = [(u(t), u(g.stmt[r].exc)[:50] if g.stmt[r].exc is not None else "raise") for s, t in stores for r in raises
             if g.reachable(g.node_for(s), r)]
@@ -559,16 +650,33 @@ def _rule_guard(ctx: Ctx, adu) -> None:
                  "(location, index) pairs): a rejected call can leave a partial write, e.g. additive=True with both indices "
                  f"given and only the first slot present: {late[:2]}")
     for s, t in plains:
-        env_true = [_ev(test, {flag: True}) if pol else _neg(_ev(test, {flag: True})) for test, pol in _path_conds(pm, s, fn)]
-        env_false = [_ev(test, {flag: False}) if pol else _neg(_ev(test, {flag: False})) for test, pol in _path_conds(pm, s, fn)]
-        ok = (False in env_true) and (False not in env_false)
+        pn = g.node_for(s)
+        ok = pn in r_ovw and pn not in r_add
         ctx.check("R2", ok, adu, "set_solution_values", s,
                   "the overwriting store must be reachable exactly when additive is false",
-                  construct=f"{u(t)} = ... under not additive", facts={"additive=True": str(env_true), "additive=False": str(env_false)})
+                  construct=f"{u(t)} = ... under not additive", facts={"reachable_if_additive": pn in r_add, "reachable_if_not": pn in r_ovw})
 
 
 def _neg(v: Optional[bool]) -> Optional[bool]:
     return None if v is None else (not v)
+
+
+def _reach(g: cfgmod.CFG, env: dict[str, bool], start: int = cfgmod.ENTRY) -> set[int]:
+    """CFG nodes reachable from start along edges that do not contradict env (three-valued branch tests)."""
+    seen = {start}
+    stack = [start]
+    while stack:
+        n = stack.pop()
+        st = g.stmt.get(n)
+        v = _ev(st.test, env) if isinstance(st, (ast.If, ast.While)) else None
+        for m in g.g.successors(n):
+            c = g.g.edges[n, m].get("cond")
+            if v is not None and c is not None and c != v:
+                continue
+            if m not in seen:
+                seen.add(m)
+                stack.append(m)
+    return seen
 
 
 # ------------------------------------------------------------------ R3: shift direction / cap
@@ -707,10 +815,21 @@ def _rule_shift(ctx: Ctx, adu) -> None:
             raise Undecided(f"{AD_UTILS}:{q}: unrecognised definition of loop iterable `{loop.iter.id}`")
     else:
         rng = [(loop, loop.iter)]
+    # a start index held in a local that is assigned per branch (`last = ...` in an if/elif chain) is expanded
+    # into one variant per assignment, classified by the branch conditions of that assignment
+    variants = []
     for d, call in rng:
-        if not (isinstance(call, ast.Call) and call_name(call) == "range" and not call.keywords):
+        if not (isinstance(call, ast.Call) and call_name(call) == "range" and not call.keywords and call.args):
             raise Undecided(f"{AD_UTILS}:{q}: loop iterable `{u(call)}` is not a range(...) call")
-        conds = _path_conds(pm, d, fn)
+        conds0 = _path_conds(pm, d, fn)
+        start_e = call.args[0]
+        if len(call.args) >= 2 and isinstance(start_e, ast.Name) and start_e.id not in (M, N):
+            sdefs = find_assign(fn, start_e.id)
+            if sdefs and all(isinstance(x, ast.Assign) and len(x.targets) == 1 for x in sdefs):
+                variants += [(sd, call, sd.value, _path_conds(pm, sd, fn) + conds0) for sd in sdefs]
+                continue
+        variants.append((d, call, start_e, conds0))
+    for d, call, start_e, conds in variants:
         capped = None
         thr = None
         for test, pol in conds:
@@ -727,7 +846,7 @@ def _rule_shift(ctx: Ctx, adu) -> None:
         else:
             arm = None
         facts = {"range": u(call), "arm": arm, "conditions": [(u(tst), pol) for tst, pol in conds]}
-        where = f"range({', '.join(u(x) for x in call.args)}) in arm [{arm}]"
+        where = f"range({', '.join([u(start_e)] + [u(x) for x in call.args[1:]])}) in arm [{arm}]"
         step = call.args[2] if len(call.args) == 3 else None
         stepv = _lin(step, set()) if step is not None else {1: 1}
         if stepv is None or len(call.args) < 2:
@@ -741,14 +860,14 @@ def _rule_shift(ctx: Ctx, adu) -> None:
                   "newest value through every slot", construct=f"step of {where}", facts=facts)
         if not descending:
             continue
-        start, stop = _lin(call.args[0], {M, N}), _lin(call.args[1], {M, N})
+        start, stop = _lin(start_e, {M, N}), _lin(call.args[1], {M, N})
         if stop is None:
             raise Undecided(f"{AD_UTILS}:{q}: cannot read range stop `{u(call.args[1])}`")
         # last iteration has i = stop + 1; its target slot must be 1 (fed from slot 0)
         ctx.check("R3", _lin_eq(_lin_add(stop, 1 + ta), {1: 1}), adu, q, d,
                   "the shift loop must end by copying slot 0 into slot 1", construct=f"stop of {where}", facts=facts)
         if arm is None:
-            forms = _min_forms(call.args[0], {M, N})
+            forms = _min_forms(start_e, {M, N})
             if capped and forms is not None and len(forms) == 2:
                 want = [{N: 1}, {M: 1, 1: -1}]
                 ok = all(any(_lin_eq(_lin_add(f, ta), w) for f in forms) for w in want)
@@ -757,7 +876,7 @@ def _rule_shift(ctx: Ctx, adu) -> None:
                 continue
             raise Undecided(f"{AD_UTILS}:{q}: cannot classify the branch of `{u(d)}` (conditions {facts['conditions']})")
         if start is None:
-            raise Undecided(f"{AD_UTILS}:{q}: cannot read range start `{u(call.args[0])}`")
+            raise Undecided(f"{AD_UTILS}:{q}: cannot read range start `{u(start_e)}`")
         top = _lin_add(start, ta)  # highest slot written
         if arm == "uncapped":
             ok = _lin_eq(top, {N: 1})
@@ -925,14 +1044,76 @@ def _rule_shift_sites_sweep(ctx: Ctx, loc: _Loc, adu, eqs) -> None:
 
 # ------------------------------------------------------------------ R5: index-kind wiring
 
+def _effective_calls(mod, q: str, callee: str) -> list[tuple[ast.Call, ast.Call]]:
+    """(call to report, call to `callee` as seen from function q).  Direct calls are returned as they are; if there
+    is none, one level of a helper of the same module / a method of the same class is followed and the helper's
+    call to `callee` is returned with the helper's parameters replaced by the arguments q passes."""
+    fn = mod.func(q)
+    direct = [c for c in walk_local(fn) if isinstance(c, ast.Call) and call_name(c) == callee]
+    if direct:
+        return [(c, c) for c in direct]
+    quals = mod.qualnames()
+    out = []
+    for c in walk_local(fn):
+        if not isinstance(c, ast.Call):
+            continue
+        if isinstance(c.func, ast.Name):
+            cq, skip = c.func.id, False
+        elif isinstance(c.func, ast.Attribute) and u(c.func.value) == "self" and "." in q:
+            cq, skip = q.rsplit(".", 1)[0] + "." + c.func.attr, True
+        else:
+            continue
+        helper = quals.get(cq)
+        if not isinstance(helper, ast.FunctionDef) or helper is fn:
+            continue
+        inner = [x for x in walk_local(helper) if isinstance(x, ast.Call) and call_name(x) == callee]
+        if not inner:
+            continue
+        m = _bind(c, helper, skip_self=skip, fill_defaults=True)
+        if m is None:
+            raise Undecided(f"{mod.rel}:{q}: cannot bind the arguments of `{u(c)[:60]}` to {cq}")
+        reassigned = {t.id for s_ in walk_local(helper) if isinstance(s_, ast.stmt) and s_ is not helper
+                      for t in assigned_targets(s_) if isinstance(t, ast.Name)} & set(m)
+        if reassigned:
+            raise Undecided(f"{mod.rel}:{cq}: parameter(s) {sorted(reassigned)} are reassigned before being forwarded")
+        out += [(c, subst(x, m)) for x in inner]  # type: ignore[misc]
+    return out
+
+
+def _unrolled_pairs(vi: ast.FunctionDef) -> list[tuple[ast.Call, ast.expr, ast.expr]]:
+    """`out.append((L, X))` sites of _validate_indices; a site inside `for a, b, ... in <literal rows>` is unrolled
+    into one pair per row."""
+    pm = parent_map(vi)
+    out = []
+    for c in [n for n in walk_local(vi) if isinstance(n, ast.Call) and call_name(n) == "append"]:
+        if not (len(c.args) == 1 and isinstance(c.args[0], ast.Tuple) and len(c.args[0].elts) == 2):
+            continue
+        l, x = c.args[0].elts
+        loop = c
+        while loop in pm and not isinstance(loop, (ast.For, ast.AsyncFor)):
+            loop = pm[loop]
+        if isinstance(loop, (ast.For, ast.AsyncFor)) and isinstance(loop.target, (ast.Tuple, ast.List)) \
+                and all(isinstance(t, ast.Name) for t in loop.target.elts) \
+                and ({u(l), u(x)} & {t.id for t in loop.target.elts}):
+            rows = _resolve(vi, loop.iter)
+            if not (isinstance(rows, (ast.Tuple, ast.List)) and rows.elts and all(
+                    isinstance(r, (ast.Tuple, ast.List)) and len(r.elts) == len(loop.target.elts) for r in rows.elts)):
+                raise Undecided(f"{AD_UTILS}:_validate_indices: loop over `{u(loop.iter)[:60]}` is not a literal table of rows")
+            for r in rows.elts:
+                env = {t.id: e for t, e in zip(loop.target.elts, r.elts)}
+                out.append((c, subst(l, env), subst(x, env)))
+        else:
+            out.append((c, l, x))
+    return out
+
+
 def _rule_wiring(ctx: Ctx, loc: _Loc, adu, eqs) -> None:
     # _validate_indices pairs
     vi = adu.func("_validate_indices")
     seen = set()
     n_pairs = 0
-    for c in [n for n in walk_local(vi) if isinstance(n, ast.Call) and call_name(n) == "append"]:
-        if len(c.args) == 1 and isinstance(c.args[0], ast.Tuple) and len(c.args[0].elts) == 2:
-            l, x = c.args[0].elts
+    for c, l, x in _unrolled_pairs(vi):
+        if True:
             k = loc.kind(l)
             if k is None:
                 continue
@@ -961,26 +1142,26 @@ def _rule_wiring(ctx: Ctx, loc: _Loc, adu, eqs) -> None:
     ]
     for mod, q, callee, cparams, names in forwards:
         fn = mod.func(q)
-        calls = [c for c in walk_local(fn) if isinstance(c, ast.Call) and call_name(c) == callee]
+        calls = _effective_calls(mod, q, callee)
         if not calls:
-            raise AnchorError(f"{mod.rel}:{q}: no call to {callee}")
-        for c in calls:
+            raise AnchorError(f"{mod.rel}:{q}: no call to {callee} (directly or through one helper)")
+        for rc, c in calls:
             for p in names:
                 if p not in cparams:
                     raise AnchorError(f"{callee} has no parameter `{p}`")
                 a = _callee_arg(c, cparams, p)
                 got = u(_resolve(fn, a)) if a is not None else None
-                ctx.check("R5", got == p, mod, q, c,
+                ctx.check("R5", got == p, mod, q, rc,
                           f"`{p}` of {q.split('.')[-1]} must be forwarded to `{p}` of {callee}; found {got}",
                           construct=f"{callee}({p}={got})", facts={"param": p, "passed": got})
     for q, kind in (("EquationSystem.shift_time_step_values", "time"), ("EquationSystem.shift_iterate_values", "iterate")):
         fn = eqs.func(q)
-        for c in [c for c in walk_local(fn) if isinstance(c, ast.Call) and call_name(c) == "shift_solution_values"]:
+        for rc, c in _effective_calls(eqs, q, "shift_solution_values"):
             la = _callee_arg(c, shift_p, "location")
             k = loc.kind(_resolve(fn, la)) if la is not None else None
             if k is None:
                 raise Undecided(f"{EQSYS}:{q}: location argument `{u(la) if la is not None else None}` is not a location constant")
-            ctx.check("R5", k == kind, eqs, q, c,
+            ctx.check("R5", k == kind, eqs, q, rc,
                       f"{q.split('.')[-1]} must shift the {kind} history; it passes the {k} location",
                       construct=f"shift_solution_values(location={u(la)})", facts={"location": u(la)})
     # the getter / setter take the slot coordinates from _validate_indices
